@@ -1,6 +1,7 @@
 import Resgate.Proofs.Lcs
 import Resgate.Proofs.Pattern
 import Resgate.Proofs.PatternSpec
+import Resgate.Proofs.PatternValid
 import Resgate.Proofs.ModelDiff
 import Resgate.Generated.Tables
 
@@ -34,10 +35,19 @@ theorem match_spec (p s : Bytes) (hp : patTokensOK (splitOn cDot p) = true)
     (parsePattern p).matches s = tokMatch (splitOn cDot p) (splitOn cDot s) :=
   Resgate.match_spec p s hp hs
 
-/-- Patterns made of valid tokens are accepted by the parser. -/
-theorem parse_accepts_valid_tokens (p : Bytes) (hp : patTokensOK (splitOn cDot p) = true) :
-    (parsePattern p).isValid = true :=
-  Resgate.parse_valid_of_tokens p hp
+/-- **A pattern is valid iff its tokens are**: `ParseResourcePattern` accepts exactly the byte
+    strings whose dot-separated tokens are non-empty and are `*`, a final `>`, or printable bytes
+    without `? * > .`. -/
+theorem parse_valid_iff (p : Bytes) :
+    (parsePattern p).isValid = true ↔ patTokensOK (splitOn cDot p) = true :=
+  Resgate.parse_valid_iff p
+
+/-- … hence for **every pattern the parser accepts** and every well-formed name, `Match` is
+    token-wise wildcard matching. -/
+theorem match_spec_valid (p s : Bytes) (hp : (parsePattern p).isValid = true)
+    (hs : ∀ t ∈ splitOn cDot s, t ≠ []) :
+    (parsePattern p).matches s = tokMatch (splitOn cDot p) (splitOn cDot s) :=
+  Resgate.match_spec_valid p s hp hs
 
 /-- Invalid patterns match nothing. -/
 theorem invalid_matches_nothing (s : Bytes) : Pattern.invalid.matches s = false :=
